@@ -1,3 +1,3 @@
 SPECIFICATION Spec
-INVARIANTS SAcceptMeans UAcceptMeans Emit
+INVARIANTS SAcceptMeans UAcceptMeans CAcceptMeans Emit
 CHECK_DEADLOCK FALSE
